@@ -337,7 +337,12 @@ def witness_search(prop, tier, seed):
         step = max(1, len(cfgs) // 24)
         cfgs = cfgs[::step][:24]
         core = vlib.differential('thorough', seed + 17, cfgs=cfgs, label='search')
-        for w in core['w'].get(prop, []):
+        ws = list(core['w'].get(prop, []))
+        if prop == 'C06':
+            # as in collect (): an invariant / lifetime / ledger monitor firing on a call that threw IS a basic-guarantee violation
+            for q in ('C02', 'C03', 'C04'):
+                ws += [dict(w, msg='C06 after a throw: ' + w.get('msg', '')) for w in core['w'].get(q, []) if threw(w)]
+        for w in ws:
             if not vlib.match_known(prop, describe_w(w)):
                 found.append(dict(kind='impl', what=w.get('msg', ''), config=w.get('config'), ops=w.get('case', []), observed=w.get('impl', '')))
     return found[:5]
